@@ -22,8 +22,8 @@ func (p *Prog) Cone(entries []*ssa.Function, stop func(*ssa.Function) bool) []*s
 	seen := map[*ssa.Function]bool{}
 	var work []*ssa.Function
 	push := func(f *ssa.Function) {
-		if f == nil || f.Blocks == nil || seen[f] {
-			return
+		if f == nil || f.Blocks == nil || seen[f] || !InRepo(f) {
+			return // only functions of the analysed module are followed (whole-module loads have bodies for everything)
 		}
 		if stop != nil && stop(f) {
 			return
